@@ -41,6 +41,7 @@ type Profile struct {
 	NoArith   bool
 	Failing   bool // may contain one construct that fails at render time
 	BigMaps   bool // bind maps with 2..12 entries (C02)
+	Ticks     bool // conditions may pass through the counting filter `tick`
 	PlainText string
 }
 
@@ -66,15 +67,16 @@ const (
 )
 
 type genv struct {
-	t      *rapid.T
-	p      Profile
-	vars   map[string]gkind
-	names  []string // assignable names
-	inLoop int
-	budget int
+	t        *rapid.T
+	p        Profile
+	vars     map[string]gkind
+	names    []string // assignable names
+	inLoop   int
+	budget   int
 	fresh    int
 	failed   bool
 	noGrowth bool
+	anyLoop  int // loop nesting, also counted through capture bodies (inLoop is reset there for break/continue)
 }
 
 var textAlphabet = []string{"", "x", "ab", " ", "y ", " z", "\n", ". ", "é", "1,"}
@@ -255,10 +257,14 @@ func (g *genv) node(depth int) *N {
 		}})
 	}
 	if g.p.Comment {
-		opts = append(opts, opt{1, func() *N { return &N{T: "comment", S: rapid.SampledFrom([]string{"", "x", " note ", "{{ n }}", "{% if %}", "{{ 1 | nofilter }}"}).Draw(g.t, "cbody")} }})
+		opts = append(opts, opt{1, func() *N {
+			return &N{T: "comment", S: rapid.SampledFrom([]string{"", "x", " note ", "{{ n }}", "{% if %}", "{{ 1 | nofilter }}"}).Draw(g.t, "cbody")}
+		}})
 	}
 	if g.p.Raw {
-		opts = append(opts, opt{1, func() *N { return &N{T: "raw", S: rapid.SampledFrom([]string{"", "x", " r ", "{{ n }}", "{% if %}", "{{ 1 | nofilter }}"}).Draw(g.t, "rbody")} }})
+		opts = append(opts, opt{1, func() *N {
+			return &N{T: "raw", S: rapid.SampledFrom([]string{"", "x", " r ", "{{ n }}", "{% if %}", "{{ 1 | nofilter }}"}).Draw(g.t, "rbody")}
+		}})
 	}
 	total := 0
 	for _, o := range opts {
@@ -278,7 +284,7 @@ func (g *genv) newName() string {
 	// reuse an existing assignable name sometimes (re-assignment, shadowing)
 	pool := []string{"v1", "v2", "v3", "n", "s", "a", "my-var", "v1", "v2", "forloop"}
 	name := pool[g.pick("name", len(pool))]
-	if name == "forloop" && g.inLoop > 0 {
+	if name == "forloop" && g.anyLoop > 0 {
 		name = "v3" // assigning forloop inside a loop body: the statement does not say what the loop then sees
 	}
 	return name
@@ -294,7 +300,7 @@ func (g *genv) assign() *N {
 	// Inside a loop an assignment must not be able to grow a value on every iteration
 	// (a = a | concat: a doubles it; three nested loops would need 2^1000 elements):
 	// growth filters are switched off there, which bounds every value by the program size.
-	g.noGrowth = g.inLoop > 0
+	g.noGrowth = g.anyLoop > 0
 	e := g.expr(k, 2)
 	g.noGrowth = false
 	g.vars[name] = k
@@ -303,7 +309,7 @@ func (g *genv) assign() *N {
 
 func (g *genv) capture(depth int) *N {
 	name := []string{"c1", "c2", "ok?", "s"}[g.pick("cname", 4)]
-	if name == "s" && g.inLoop > 0 {
+	if name == "s" && g.anyLoop > 0 {
 		name = "c1" // a captured variable printed inside its own capture body in a loop doubles on every iteration
 	}
 	// break/continue escaping a capture body is excluded by construction
@@ -394,7 +400,9 @@ func (g *genv) loopNode(depth int, tag string) *N {
 	oldKind, had := g.vars[vname]
 	g.vars[vname] = elemKind
 	g.inLoop++
+	g.anyLoop++
 	n.Body = g.block(depth+1, 1)
+	g.anyLoop--
 	g.inLoop--
 	if had {
 		g.vars[vname] = oldKind
@@ -523,7 +531,9 @@ func (g *genv) exprD(k gkind, depth int, plain bool) *E {
 		)
 		if !plain && g.p.Filters {
 			opts = append(opts,
-				func() *E { return Flt(g.exprD([]gkind{gArrInt, gArrStr, gStr}[g.pick("szk", 3)], depth-1, false), "size") },
+				func() *E {
+					return Flt(g.exprD([]gkind{gArrInt, gArrStr, gStr}[g.pick("szk", 3)], depth-1, false), "size")
+				},
 				func() *E { return Flt(g.exprD(gArrInt, depth-1, false), []string{"first", "last"}[g.pick("fl", 2)]) },
 			)
 		}
@@ -634,6 +644,16 @@ func (g *genv) cond(depth int) *E {
 			}
 		},
 	}
+	if g.p.Ticks {
+		// a counting filter: the number of evaluations shows which conditions were evaluated
+		opts = append(opts, func() *E {
+			ks := []gkind{gInt, gStr, gNil, gBool, gArrInt}
+			return Flt(g.plain(ks[g.pick("tkk", len(ks))]), "tick")
+		})
+	}
+	if g.p.Failing && g.pick("failing", 4) == 0 {
+		opts = append(opts, func() *E { return Flt(g.plain(gInt), "fail") }, func() *E { return Flt(g.plain(gInt), "divided_by", LInt(0)) })
+	}
 	if depth > 0 {
 		opts = append(opts, func() *E {
 			op := []string{"and", "or"}[g.pick("bop", 2)]
@@ -667,4 +687,10 @@ func GenSpacing(t *rapid.T, label string) []int {
 // Describe gives a short description of a program for samples.
 func (p *Program) Describe() map[string]any {
 	return map[string]any{"template": p.Source(), "bindings": fmt.Sprint(p.Binds.Logical())}
+}
+
+// GenCond draws a stand-alone condition over the standard bindings.
+func GenCond(t *rapid.T, p Profile, depth int) *E {
+	g := &genv{t: t, p: p, vars: baseVars(), budget: 8}
+	return g.cond(depth)
 }
